@@ -24,7 +24,7 @@ class Facts:
                      ('dissolve_caches', lambda x: __import__('caches').dissolve_caches(x, kadts), 'renamed'),
                      ('normalise_option_filter', inline.normalise_option_filter, 'renamed'),
                      ('normalise_internal_iteration', inline.normalise_internal_iteration, 'renamed'),
-                     ('inline_closure_calls', lambda x: inline.inline_closure_calls(x) if self.inlined else [], 'renamed'),
+                     ('inline_closure_calls', lambda x: inline.inline_closure_calls(x) if (self.inlined or any('get_or_insert_with' in str(r) for r in self.renamed)) else [], 'renamed'),
                      ('dissolve_new_structs', lambda x: inline.dissolve_new_structs(x, kadts), 'renamed'),
                      ('split_tuple_locals', lambda x: inline.split_tuple_locals(x, known), 'renamed')]
             skip = set()
